@@ -21,7 +21,7 @@ add("C01", "X", "model_checking",
 add("C02", "X", "model_checking",
     "explicit-state model checking (stateright) + fair-suffix ranking executed on the real objects from every unique state; payload-length sweep under a wall-clock watchdog",
     "From every reachable state of the two-endpoint model (i.e. after every finite fault prefix within the budgets) the fair suffix is executed on the real endpoints and must reach the goal (ready, all vital chunks delivered and acknowledged, nothing queued) within 24 rounds; the deadline invariant is checked on every state; every call runs under a watchdog; every payload length 0..1391 and boundary pairs are lost once and must be recovered.",
-    "Trusted: stateright search; the fair scheduler defined in model.rs (rank); watchdog limit 10 s per call; bounds in the evidence.",
+    "Trusted: stateright search; the fair scheduler defined in model.rs (rank); watchdog limit 30 s per call; bounds in the evidence.",
     "DESIGN.md 3/C02")
 add("C03", "X", "model_checking",
     "explicit-state model checking (stateright); per unique state an exhaustive sweep of a foreign-datagram alphabet against a copy of the real endpoint",
